@@ -103,6 +103,15 @@ CHECKS["C11"] = ("other",
     "the serde_yaml/serde_json -> Value conversion tables with exactly one insert per map entry / list element.",
     TB % "c11", "literal-table extraction + decision tables via abstract interpretation of MIR (no execution)", "DESIGN.md §5 C11")
 
+CHECKS["C07"] = ("other",
+    "Who-may-call / who-may-construct over the resolved call graphs of the library, the CLI, the Lambda and the FFI crate: every "
+    "entry path evaluates through eval_rules_file on a root_scope-built resolver and nothing outside the evaluator builds verdict "
+    "records; the command layer's status and exit-code specifications (C06) are re-decided with all output flags unconstrained "
+    "(non-interference); each reporter's Status->bucket mapping (summary table sections, console summary arguments, JUnit case "
+    "and status attribute, SARIF from not_compliant only) equals one oracle; JUnit text goes through the escaping constructor. "
+    "Not claimed: well-formedness produced by serde/quick-xml themselves; equality of the serde loader with the libyaml loader.",
+    TB % "c07", "call-graph rules + decision tables via abstract interpretation of MIR (no execution)", "DESIGN.md §5 C07")
+
 NOT_APPLICABLE = {
 }
 
